@@ -17,7 +17,9 @@ open RV.C07
 #print axioms n3_roundtrip_any_lexical
 #print axioms n3_roundtrip_witness
 #print axioms n3_guard
-#print axioms reduce_rebuild_of_wsIdem
+#print axioms ws_idempotent
+#print axioms reduce_rebuild
+#print axioms constructed_text_stable
 #print axioms old_reduce_renormalises
 #print axioms table_ordering
 #print axioms table_short_escapes
